@@ -202,3 +202,92 @@ Theorem guard_other_refuted : exists env G hs gs p,
 Proof.
   exists (fun _ => true), (fun g => N.eqb g 1), [PTrue; PTrue], [1%N; 2%N], PTrue. cbn. repeat split; auto.
 Qed.
+
+(* ---- conditions that raise: with the parts of a composite evaluated under comp_part_guard, the whole decision procedure is
+        the total one over `total envx` (raising = not satisfied), and the rewrite is never aborted *)
+Definition tot (r : option bool) : bool := match r with Some b => b | None => false end.
+
+Lemma reduce_x_some a l : reduce_x a (map Some l) = Some (reduce a l).
+Proof.
+  unfold reduce. induction l as [|b l IH]; cbn [map reduce_x]; [now destruct a|].
+  destruct a, b; cbn [Bool.eqb existsb forallb orb andb]; auto.
+Qed.
+Lemma guard_tot r : comp_part_guard r = Some (tot r).
+Proof. now destruct r as [[|]|]. Qed.
+
+Section AtNodeX.
+  Variable envx : N -> option bool.
+  Let env := total envx.
+
+  Lemma evalx_comp a parts :
+    evalx envx (PComp a parts) =
+      let rs := map (fun x => (p_static x, evalx envx x)) parts in
+      let elt := fun (r : bool * (option bool * option bool)) =>
+                   comp_part_guard (if comp_parts_use_full_call then fst (snd r) else snd (snd r)) in
+      let call_all := reduce_x a (map elt rs) in
+      let call_dyn := reduce_x a (map elt (filter (fun r => comp_is_dynamic_part (fst r)) rs)) in
+      (call_all, comp_dynamic_call_x (p_static (PComp a parts)) call_all call_dyn).
+  Proof. reflexivity. Qed.
+
+  (* a composite (and a singleton) never raises; a base condition raises exactly when its function does *)
+  Definition never_raises (p : pred) : Prop := match p with PBase _ _ => True | _ => fst (evalx envx p) <> None /\ snd (evalx envx p) <> None end.
+
+  Theorem evalx_total : forall p,
+    tot (fst (evalx envx p)) = callp env p /\ tot (snd (evalx envx p)) = dynp env p /\ never_raises p.
+  Proof.
+    unfold callp, dynp.
+    induction p as [| |s c|a parts IH] using pred_ind2.
+    - cbn. repeat split; discriminate.
+    - cbn. repeat split; discriminate.
+    - cbn. unfold env, total, base_dynamic_call_x, base_dynamic_call. destruct s, (envx c) as [[|]|]; repeat split.
+    - assert (E : map (fun r : bool * (option bool * option bool) => comp_part_guard (if comp_parts_use_full_call then fst (snd r) else snd (snd r)))
+                      (map (fun x => (p_static x, evalx envx x)) parts)
+                  = map Some (map (fun r : bool * (bool * bool) => if comp_parts_use_full_call then fst (snd r) else snd (snd r))
+                                  (map (fun x => (p_static x, evalp env x)) parts))).
+      { rewrite !map_map. cbn [snd fst]. unfold comp_parts_use_full_call.
+        apply map_ext_in. intros x Hx. rewrite Forall_forall in IH. destruct (IH x Hx) as [H1 _]. now rewrite guard_tot, H1. }
+      assert (F : map (fun r : bool * (option bool * option bool) => comp_part_guard (if comp_parts_use_full_call then fst (snd r) else snd (snd r)))
+                      (filter (fun r => comp_is_dynamic_part (fst r)) (map (fun x => (p_static x, evalx envx x)) parts))
+                  = map Some (map (fun r : bool * (bool * bool) => if comp_parts_use_full_call then fst (snd r) else snd (snd r))
+                                  (filter (fun r => comp_is_dynamic_part (fst r)) (map (fun x => (p_static x, evalp env x)) parts)))).
+      { clear E. induction parts as [|x l IHl]; [reflexivity|].
+        cbn [map filter fst]. inversion IH as [|? ? Hx Hl]; subst.
+        destruct (comp_is_dynamic_part (p_static x)); cbn [map]; rewrite (IHl Hl); [|reflexivity].
+        f_equal. unfold comp_parts_use_full_call. cbn [fst snd]. destruct Hx as [H1 _]. now rewrite guard_tot, H1. }
+      pose proof (evalx_comp a parts) as Ex. cbn zeta in Ex. rewrite E, F, !reduce_x_some in Ex.
+      unfold never_raises. rewrite Ex, evalp_comp. cbn zeta. cbn [fst snd tot].
+      unfold comp_dynamic_call_x, comp_dynamic_call.
+      destruct (p_static (PComp a parts)); cbn [tot]; repeat split; congruence.
+  Qed.
+
+  Lemma wf_never_raises_site hs : exists s, site_x envx hs = Some s /\ s = site env hs.
+  Proof.
+    unfold site_x, site, callp.
+    set (q := if site_reducer_is_any then pany hs else pall hs).
+    destruct (evalx_total q) as (H1 & _ & H3).
+    assert (Hq : match q with PBase _ _ => False | _ => True end).
+    { unfold q, pany, pall. destruct site_reducer_is_any;
+        [destruct (any_coalesce (map ident_of hs))|destruct (all_coalesce (map ident_of hs))]; exact I. }
+    destruct (fst (evalx envx q)) as [b|] eqn:Eb.
+    - exists b. split; [reflexivity|]. exact H1.
+    - exfalso. destruct q; try contradiction; destruct H3 as [H3 _]; now apply H3.
+  Qed.
+
+  Lemma deliver_x_total p : deliver_x envx p = deliver env p.
+  Proof.
+    unfold deliver_x, deliver. destruct (evalx_total p) as (H1 & H2 & _).
+    rewrite <- H1, <- H2. unfold deliver_test_x, deliver_test.
+    destruct (ident_eqb (ident_of p) IsTrue), (p_static p), (snd (evalx envx p)) as [[|]|]; reflexivity.
+  Qed.
+
+  Theorem invoked_x_total hs p : invoked_x envx hs p = Some (invoked env hs p).
+  Proof.
+    unfold invoked_x, invoked. destruct (wf_never_raises_site hs) as (s & Hs & Es).
+    now rewrite Hs, Es, deliver_x_total.
+  Qed.
+  Theorem invoked_gx_total G hs gs p g : invoked_gx envx G hs gs p g = Some (invoked_g env G hs gs p g).
+  Proof.
+    unfold invoked_gx, invoked_g. destruct (wf_never_raises_site hs) as (s & Hs & Es).
+    now rewrite Hs, Es, deliver_x_total.
+  Qed.
+End AtNodeX.
